@@ -530,7 +530,7 @@ static void run_fuzz(const char *path, const struct tinfo *ts, int nt, size_t ca
 '''
 
 
-def build_driver(spec, header, header_name, cases, fuzz_cap=1 << 18):
+def build_driver(spec, header, header_name, cases, fuzz_cap=1 << 23):
     """cases: [(module, type, value)].  Returns (c_text, types, expected) where
     types is the list [(module, type)] in index order and expected the list of
     expected dump texts (None for the E/S/D/T protocol is computed by the
@@ -560,7 +560,7 @@ def build_driver(spec, header, header_name, cases, fuzz_cap=1 << 18):
     return '\n'.join(parts), types, w
 
 
-def driver_main(cases, types, lens, sizes, fuzz_cap=1 << 18):
+def driver_main(cases, types, lens, sizes, fuzz_cap=1 << 23):
     """main() once the expected encoded lengths are known."""
     out = ['int main(int argc, char **argv) {', '    setvbuf(stdout, NULL, _IOFBF, 1 << 16);',
            '    if (argc > 1) { run_fuzz(argv[1], TYPES, %d, %d); return 0; }' % (len(types), fuzz_cap)]
